@@ -1196,6 +1196,17 @@ def translate_function(mod, spec):
         raise TranslationError("%s: *args / **kwargs / keyword-only parameters are not in the subset" % spec["func"])
     lean_name = spec.get("name", spec["func"])
     spec = dict(spec, name=lean_name)
+    deco_notes = []
+    for d in node.decorator_list:
+        dn = d.func if isinstance(d, ast.Call) else d
+        dn = dn.id if isinstance(dn, ast.Name) else ast.unparse(dn)
+        if dn == "staticmethod":
+            continue
+        if dn == "lru_cache":
+            deco_notes.append("decorator @%s is treated as transparent (a cache of a function of its arguments; the "
+                              "translated function is the undecorated one)" % ast.unparse(d))
+            continue
+        raise TranslationError("%s:%d %s: decorator @%s is not in the subset" % (mod.relpath, d.lineno, spec["func"], ast.unparse(d)))
     body = list(node.body)
     pyparams = [x.arg for x in a.args]
     how = "the whole function"
@@ -1243,6 +1254,7 @@ def translate_function(mod, spec):
     def attempt(monadic):
         fn = Fn(mod, node, spec)
         fn.monadic = monadic
+        fn.notes.extend(deco_notes)
         env = {}
         binders = []
         for x in externals:
